@@ -772,6 +772,19 @@ func genBatch(prop string, g *Gen, m *Model, rng *SplitMix) []Cmd {
 	case "C14":
 		// an epic losing its last child / being pruned while tasks move into it
 		e := g.ref(m, isEpic, false)
+		if ce, ok := g.liveOf(m, func(it *MItem) bool {
+			if !it.IsEpic {
+				return false
+			}
+			for _, t := range m.Tasks() {
+				if t.Epic == it.ID && !finished(t.State) {
+					return false
+				}
+			}
+			return true
+		}); ok && rng.Chance(3, 4) {
+			e = ce // an epic that prune --yes will remove
+		}
 		cmds = []Cmd{{Op: "prune", Yes: true}, {Op: "new_task", Title: sp(g.text("title")), Epic: &e}}
 		if t, ok := g.liveOf(m, isTask); ok {
 			cmds = append(cmds, Cmd{Op: "set", ID: t, Epic: &e})
@@ -906,6 +919,23 @@ func runConcSample(bin, prop string, seed uint64, thorough bool) *RunReport {
 		st := g.Next(r.M)
 		sc.Steps = append(sc.Steps, st)
 		r.ExecStep(st)
+	}
+	if prop == "C14" || prop == "C09" || prop == "C15" {
+		// make sure the shapes the conflict needs exist: a childless epic (which
+		// prune --yes removes), and for C15 two epics with a task each
+		extra := []Cmd{{Op: "new_epic", Title: sp(g.text("title"))}}
+		if prop == "C15" {
+			extra = append(extra, Cmd{Op: "new_epic", Title: sp(g.text("title"))})
+			for k := 0; k < 2; k++ {
+				e := fmt.Sprintf("#%d", len(r.M.Order)+k)
+				extra = append(extra, Cmd{Op: "new_task", Title: sp(g.text("title")), Epic: &e})
+			}
+		}
+		for i := range extra {
+			st := Step{Cmd: &extra[i]}
+			sc.Steps = append(sc.Steps, st)
+			r.ExecStep(st)
+		}
 	}
 	if (prop == "C01" || prop == "C02") && rng.Chance(1, 6) {
 		st := Step{Disk: &DiskOp{Kind: "inflate", N: 10 + rng.Intn(16), Pos: rng.Intn(1 << 16)}}
